@@ -9,6 +9,7 @@ META = {
         "(2) detach, Drop, restart and the debuggee-exit / process-vanished paths un-patch breakpoints and clear watchpoints before ptrace::detach / SIGKILL / re-install; "
         "(3) all tracer stop reasons after which the debuggee is marked Exited hibernate the breakpoint registry the same way; "
         "(4) disable_all_breakpoints keeps exactly the user-visible kinds (EntryPoint, UserDefined) and drops internal ones."
+        " (5) shared with C01: pc rewind before any re-execution at a breakpoint, and the un-patch / single-step / re-patch discipline."
     ),
     "not_decided": "equality of the debuggee's output/exit status with a native run; byte-level memory image at every prompt (needs execution)",
     "assumptions": ["unwind (panic) edges ignored", "a closure passed to an iterator adaptor is executed at that call"],
